@@ -14,6 +14,11 @@ CLI_NOTE = ("CLI correspondence: seeded command histories on real temporary proj
 POOL_NOTE = ("The theorems are about the labelled transition system GwfModel/Pool.lean (labels = the events observable on the real Scheduler). "
              "That asyncio realises only enabled transitions is VALIDATED by trace acceptance on the explored schedules (virtual clock, fake subprocess, instrumented semaphore/state table; fine-grained settling so cancels hit every await point), not proved. ")
 CHECKS = {
+ "C07": dict(
+   text="Theorems: for every list of well-formed ids (any length) the scheduler-side reader recovers exactly the ids gwf renders — Slurm afterok:a:b (read_render_slurm), SGE -hold_jid a,b (read_render_sge), local task ids; no prerequisites ⇒ no flag; LSF done() conjunctions as kernel-checked instances; for any digit string the id stored from 'digits\\n' (sbatch --parsable, qsub -terse) is the digits, newline stripped, and well-formed (parseId_slurm_sge); a target with a backend state is tracked and an accepted submission tracks the returned id, so the prerequisite ids are exactly the tracked ids of the named dependencies (prereq_ids_exact); for EVERY reachable state of an abstract scheduler with afterok/done semantics a started job's prerequisites all completed, with hold semantics they all left the queue (no_early_start_afterok / _hold, inductive invariant over all label sequences).",
+   note=CLI_NOTE + "The abstract scheduler (Sch.clStep) encodes the documented semantics of afterok, -hold_jid and done(); real schedulers are not available (trusted). The general LSF read∘render theorem is not proved (instances only, partial). Local pool: a fake pool server records the real client's enqueue messages; the scheduler side is the C11 trace engine.",
+   technique="Lean 4 proof (string splitting lemmas, inductive invariant of an abstract scheduler LTS) + CLI history correspondence on four backends + TrackingBackend id tests + pool trace validation",
+   design="§6-C07"),
  "C19": dict(
    text="Theorems for ALL strings: a name is accepted iff non-empty, first char letter/underscore, rest letters/digits/underscore/dot (validName_iff; the regex literal and re.fullmatch are regenerated from the source — nameRegex_spec); a trailing newline is always rejected; a path is accepted iff non-empty and free of C0/C1 control characters (validPath_iff); a template/map target's working directory is the template's if given and non-empty, else the workflow's (targetWd_cases); with an absolute working directory the normalised path does not depend on the invoking directory (paths_cwd_independent); a batch of names is accepted iff pairwise distinct and new (addAll_ok_iff — covers collisions inside one map call); <base>_<i> naming is injective in i (map_names_distinct, from Nat.repr injectivity); the upward search for the workflow file returns the project root from the root and from every nested directory without its own workflow file (find_from_subdir).",
    note="unicodedata's Cc category is modelled as the two control blocks; PathLike handling (fspath) and the frame-inspection that determines Workflow().working_dir are exercised by the correspondence only. The project is loaded in-process from three directories and through the CLI; symlinked project directories are not generated.",
